@@ -4,13 +4,16 @@
 //  (b) the step taken at sub-iteration s scales with zeta_n = alpha/(1+gamma*n): the relaxation actually used (read from the
 //      member through a subclass) equals alpha/(1+gamma*n) with n the full-iteration number the code documents (s/num_subsets;
 //      the off-by-one of that convention is the open known finding and not tested here).
-// usage: c08_ossps_replay        exit 0 "REPLAY ok"; exit 1 + CONFIRMED line otherwise
+// usage: c08_ossps_replay [formula]   (formula: first sub-iteration against clamp(x + zeta N grad / D) recomputed through the objective function's public interface)
+//        exit 0 "REPLAY ok"; exit 1 + CONFIRMED line otherwise
 #include "stir/OSSPS/OSSPSReconstruction.h"
 #include "stir/recon_buildblock/PoissonLogLikelihoodWithLinearModelForMeanAndProjData.h"
 #include "stir/recon_buildblock/ProjMatrixByBinUsingRayTracing.h"
 #include "stir/recon_buildblock/ProjectorByBinPairUsingProjMatrixByBin.h"
 #include "stir/recon_buildblock/ForwardProjectorByBinUsingProjMatrixByBin.h"
 #include "stir/ProjDataInMemory.h"
+#include "stir/recon_buildblock/QuadraticPrior.h"
+#include "stir/recon_buildblock/PriorWithParabolicSurrogate.h"
 #include "stir/ProjDataInfo.h"
 #include "stir/Scanner.h"
 #include "stir/ExamInfo.h"
@@ -20,6 +23,7 @@
 #include <algorithm>
 #include <cmath>
 #include <cstdio>
+#include <string>
 using namespace stir;
 typedef DiscretisedDensity<3, float> target_type;
 
@@ -62,7 +66,74 @@ static double maxdiff(const target_type& a, const target_type& b, double& mx)
   for (auto ia = a.begin_all_const(); ia != a.end_all_const(); ++ia, ++ib) { m = std::max(m, std::fabs(double(*ia) - double(*ib))); mx = std::max(mx, std::fabs(double(*ia))); }
   return m;
 }
-int main()
+
+// one sub-iteration (the first of a run) with a quadratic prior against the formula of the property, everything recomputed from the
+// objective function: D = max-to-positive( -(approximate Hessian of the log-likelihood applied to ones) + 2 * prior surrogate curvature )
+static int formula(const target_type& start)
+{
+  struct { int S; float alpha, gamma; bool prior; } cfg[] = { { 4, 1.F, 0.1F, true }, { 2, 1.5F, 0.5F, false }, { 1, 1.F, 0.3F, true } };
+  for (auto& c : cfg)
+    {
+      shared_ptr<PoissonLogLikelihoodWithLinearModelForMeanAndProjData<target_type>> obj(new PoissonLogLikelihoodWithLinearModelForMeanAndProjData<target_type>);
+      obj->set_proj_data_sptr(data);
+      shared_ptr<ProjMatrixByBinUsingRayTracing> pm(new ProjMatrixByBinUsingRayTracing);
+      pm->set_restrict_to_cylindrical_FOV(false);
+      shared_ptr<ProjectorByBinPair> pp(new ProjectorByBinPairUsingProjMatrixByBin(pm));
+      obj->set_projector_pair_sptr(pp);
+      if (c.prior)
+        {
+          shared_ptr<GeneralisedPrior<target_type>> prior(new QuadraticPrior<float>(false, 0.5F));
+          obj->set_prior_sptr(prior);
+        }
+      OSSPS r;
+      r.set_objective_function_sptr(obj);
+      r.set_input_data(data);
+      r.set_num_subsets(c.S);
+      r.set_num_subiterations(1);
+      r.set_start_subiteration_num(1);
+      r.relax(c.alpha, c.gamma);
+      r.set_disable_output(true);
+      r.set_output_filename_prefix("c08_replay_ossps");
+      shared_ptr<target_type> img(start.clone());
+      if (r.set_up(img) == Succeeded::no) { std::printf("set_up failed\n"); return 3; }
+      if (r.reconstruct(img) == Succeeded::no) { std::printf("reconstruct failed\n"); return 3; }
+      // expected
+      shared_ptr<target_type> x(start.clone());
+      obj->fill_nonidentifiable_target_parameters(*x, 0);
+      shared_ptr<target_type> D(x->get_empty_copy()), ones(x->get_empty_copy()), grad(x->get_empty_copy());
+      std::fill(ones->begin_all(), ones->end_all(), 1.F);
+      obj->add_multiplication_with_approximate_Hessian_without_penalty(*D, *ones);
+      for (auto it = D->begin_all(); it != D->end_all(); ++it) *it = -*it;
+      if (c.prior)
+        {
+          shared_ptr<target_type> curv(x->get_empty_copy());
+          dynamic_cast<PriorWithParabolicSurrogate<target_type>&>(*obj->get_prior_ptr()).parabolic_surrogate_curvature(*curv, *x);
+          auto id = D->begin_all();
+          for (auto ic = curv->begin_all_const(); ic != curv->end_all_const(); ++ic, ++id) *id = *ic * 2 + *id;
+        }
+      for (auto it = D->begin_all(); it != D->end_all(); ++it) if (*it <= 0) *it = 10.E-6F;
+      obj->compute_sub_gradient(*grad, *x, 0);
+      const int n = 1 / c.S; // the code's convention for sub-iteration 1 (see the open known finding for the last sub-iteration of an iteration)
+      const float zeta = c.alpha / (1 + c.gamma * n);
+      double worst = 0, mx = 0;
+      auto ig = grad->begin_all_const(); auto id = D->begin_all_const(); auto ir = img->begin_all_const();
+      for (auto ix = x->begin_all_const(); ix != x->end_all_const(); ++ix, ++ig, ++id, ++ir)
+        {
+          float v = *ix + (*ig * c.S) / *id * zeta;
+          if (v < 0) v = 0;
+          worst = std::max(worst, std::fabs(double(v) - double(*ir)));
+          mx = std::max(mx, std::fabs(double(v)));
+        }
+      if (worst > 2e-4 * std::max(mx, 1e-20))
+        {
+          std::printf("CONFIRMED OSSPS %d subsets, alpha %g, gamma %g, %s: the first sub-iteration differs from clamp(x + zeta N grad / D): max abs difference %g (image max %g)\n",
+                      c.S, c.alpha, c.gamma, c.prior ? "quadratic prior" : "no prior", worst, mx);
+          return 1;
+        }
+    }
+  return 0;
+}
+int main(int argc, char** argv)
 {
   try
     {
@@ -86,6 +157,12 @@ int main()
       }
       shared_ptr<target_type> start(truth->get_empty_copy());
       for (auto it = start->begin_all(); it != start->end_all(); ++it) *it = 0.5F + 3.F * rnd();
+      if (argc > 1 && std::string(argv[1]) == "formula")
+        {
+          const int rc = formula(*start);
+          if (!rc) std::printf("REPLAY ok\n");
+          return rc;
+        }
       struct { int S, K, k; float alpha, gamma; } cfg[] = { { 4, 10, 5, 1.F, 0.1F }, { 2, 7, 3, 1.5F, 0.5F }, { 1, 4, 2, 1.F, 0.3F }, { 4, 9, 4, 1.F, 0.F } };
       for (auto& c : cfg)
         {
